@@ -168,6 +168,14 @@ INFER_PROGS = [
     ("option::unwrap_or!/temporaries", "pub fn f(a: Option<&str>, b: &str) -> usize { konst::option::unwrap_or!(a, b.to_lowercase().as_str()).len() }"),
     ("result::unwrap_or!/temporaries", "pub fn f(a: Result<&str, ()>, b: &str) -> usize { konst::result::unwrap_or!(a, b.to_lowercase().as_str()).len() }"),
     ("option::map!/temporaries", "pub fn f(b: &str) -> Option<usize> { konst::option::map!(Some(b.to_lowercase().as_str()), |s| s.len()) }"),
+    # a fallback that only *coerces* to the payload type (array reference to slice, fn item to fn pointer, reference to trait
+    # object): `opt.unwrap_or(fallback)` coerces its argument, so the macro must leave a coercion site for it
+    ("option::unwrap_or!/unsize", "pub fn f(o: Option<&'static [u8]>) -> &'static [u8] { konst::option::unwrap_or!(o, &[1u8, 2, 3]) }"),
+    ("result::unwrap_or!/unsize", "pub fn f(r: Result<&'static [u8], ()>) -> &'static [u8] { konst::result::unwrap_or!(r, &[1u8, 2, 3]) }"),
+    ("option::unwrap_or!/fn pointer", "pub fn id(x: u8) -> u8 { x }\npub fn f(o: Option<fn(u8) -> u8>) -> fn(u8) -> u8 { konst::option::unwrap_or!(o, id) }"),
+    ("option::unwrap_or!/dyn", "pub fn f(o: Option<&'static dyn core::fmt::Debug>) -> &'static dyn core::fmt::Debug { konst::option::unwrap_or!(o, &5u8) }"),
+    ("option::unwrap_or_else!/unsize", "pub fn f(o: Option<&'static [u8]>) -> &'static [u8] { konst::option::unwrap_or_else!(o, || &[1u8, 2, 3]) }"),
+    ("result::unwrap_or_else!/unsize", "pub fn f(r: Result<&'static [u8], ()>) -> &'static [u8] { konst::result::unwrap_or_else!(r, |_| &[1u8, 2, 3]) }"),
     ("unwrap_or!/untyped", "pub const M: u8 = konst::option::unwrap_or!(Some(3u8), 5);"),
     ("result::unwrap_or!/untyped", "pub const M: u8 = konst::result::unwrap_or!(Ok::<u8, ()>(3), 5);"),
 ]
